@@ -7,6 +7,8 @@ use libfuzzer_sys::fuzz_target;
 // with the oracle's message and the decoded case.
 fuzz_target!(|data: &[u8]| {
     if let Err(m) = hv::fuzzentry::prop_case_env(data) {
-        panic!("ORACLE: {}", m);
+        // (the panic hook is hv's quiet one here, so the message is printed explicitly)
+        eprintln!("ORACLE: {}", m);
+        std::process::abort();
     }
 });
